@@ -51,6 +51,8 @@ impl InstructionGenerator {
             }
             // run matched CASE block statements
             self.visit(statements);
+            // to be able to RESUME NEXT after an error at the last statement of the block
+            self.mark_statement_address();
             // jump out of SELECT
             self.jump(labels::end_select(), pos);
         }
